@@ -336,7 +336,8 @@ func runC07(c *Ctx, idx int, o *Obs) {
 				a2 = append(a2, args[i])
 			}
 			what += " (input: " + inMode + ")"
-			res := runCLI(c, inStdin, a2...)
+			res, outMode := runCLIOut(c, r, inStdin, a2...)
+			o.Ev("cli_output:"+outMode, 1)
 			o.Ev("cli", 1)
 			o.Ev("cli_input:"+inMode, 1)
 			if !o.Check(res.Exit == 0 && !res.Panic, "cli_failed", what+": "+res.brief(), start) {
